@@ -45,7 +45,22 @@ func init() {
 			}
 			n++
 			appended := false
-			for _, s := range loop.Body.List {
+			defs := localDefs(info, loop.Body)
+			// top level of the body, where `if <exit> { break/return } else { … }` counts as `if <exit> { … }; …`
+			var top []ast.Stmt
+			var flatten func(list []ast.Stmt)
+			flatten = func(list []ast.Stmt) {
+				for _, s := range list {
+					top = append(top, s)
+					if is, ok := s.(*ast.IfStmt); ok && is.Else != nil && terminates(info, is.Body.List) {
+						if eb, ok := is.Else.(*ast.BlockStmt); ok {
+							flatten(eb.List) // (a `continue` exit is counted separately below)
+						}
+					}
+				}
+			}
+			flatten(loop.Body.List)
+			for _, s := range top {
 				as, ok := s.(*ast.AssignStmt)
 				if !ok || len(as.Lhs) != 1 || len(as.Rhs) != 1 {
 					continue
@@ -54,7 +69,8 @@ func init() {
 				if !isApp || len(call.Args) != 2 || call.Ellipsis != token.NoPos {
 					continue
 				}
-				if id, ok := unparen(call.Args[1]).(*ast.Ident); ok && info.ObjectOf(id) == rec && c.src(as.Lhs[0]) == c.src(call.Args[0]) {
+				// the record itself or a single-definition local that is the record (`row := record`)
+				if id, ok := defs.resolve1(info, call.Args[1]).(*ast.Ident); ok && info.ObjectOf(id) == rec && c.src(as.Lhs[0]) == c.src(call.Args[0]) {
 					appended = true
 				}
 			}
